@@ -918,7 +918,7 @@ def build(chk: Check) -> None:
     chk.sub("general", o_main, strategy=s_case(), n={"quick": 1600, "thorough": 60000}, budget_s={"quick": 60, "thorough": 420})
     chk.sub("big_curved", o_main, strategy=s_case("big"), n={"quick": 400, "thorough": 20000}, budget_s={"quick": 30, "thorough": 150})
     chk.sub("shape_request", o_main, strategy=s_case("shape"), n={"quick": 300, "thorough": 12000}, budget_s={"quick": 30, "thorough": 100})
-    chk.sub("same_crs", o_main, strategy=s_case("same_crs"), n={"quick": 300, "thorough": 15000}, budget_s={"quick": 20, "thorough": 60})
+    chk.sub("same_crs", o_main, cov={"quick": 150, "thorough": 8000}, strategy=s_case("same_crs"), n={"quick": 300, "thorough": 15000}, budget_s={"quick": 20, "thorough": 60})
     chk.sub("utm", o_main, strategy=s_case("utm"), n={"quick": 150, "thorough": 5000}, budget_s={"quick": 40, "thorough": 100})
     chk.sub("tol_band", o_main, strategy=s_band(), n={"quick": 200, "thorough": 5000}, budget_s={"quick": 20, "thorough": 30})
     chk.sub("entry_points", o_entry, strategy=s_case(), n={"quick": 100, "thorough": 4000}, budget_s={"quick": 30, "thorough": 60})
